@@ -373,20 +373,45 @@ def _agg_count(items, t):
     if is_ent(t): return len(items)
     return len(set(_nn(items)))                     # convention: DISTINCT for non-entity values
 AGGS = dict(sum=_agg_sum, min=_agg_min, max=_agg_max, avg=_agg_avg, count=_agg_count)
+def is_lifted(m):
+    """collection reached by attribute path from a query variable (p.tags, p.tags.w, p.dept.persons.n)"""
+    while m.op == 'attr': m = m.a[0]
+    return m.op == 'var'
+def _ms_items(ev, m, env):
+    """items of collection m; inside a grouped (aggregated) query an attribute-lifted collection is
+    the join over all rows of the group (Pony turns it into JOIN + GROUP BY)"""
+    if env.group is not None and is_lifted(m):
+        items = []
+        for e in env.group: items.extend(ev.value(m, e))
+        if is_ent(item_t(m.t)):
+            out = []
+            for i in items:
+                if not any(i is j for j in out): out.append(i)
+            return out
+        return items
+    return ev.value(m, env)
 def _l_agg(name):
     def f(ev, x, env):
-        items = ev.value(x.a[0], env)
-        return AGGS[name](items, item_t(x.a[0].t))
+        return AGGS[name](_ms_items(ev, x.a[0], env), item_t(x.a[0].t))
     return f
+LIFT_AGGS = ('sum', 'min', 'max', 'avg', 'count', 'len_ms', 'count_m', 'group_concat')
+def walk_scope(x):
+    """nodes of x that belong to the query's own scope (nested generators are not entered)"""
+    yield x
+    if x.op == 'gen': return
+    for c in x.a:
+        for y in walk_scope(c): yield y
+def lifted_aggs(x):
+    return [n for n in walk_scope(x) if n.op in LIFT_AGGS and n.a and is_ms(n.a[0].t) and is_lifted(n.a[0])]
 for _n in AGGS: prod(_n, _n + '({0})', lazy=_l_agg(_n), atomic=True)
-prod('len_ms', 'len({0})', lazy=lambda ev, x, env: len(ev.value(x.a[0], env)), atomic=True)
-prod('count_m', '{0}.count()', lazy=lambda ev, x, env: len(ev.value(x.a[0], env)), atomic=True)
+prod('len_ms', 'len({0})', lazy=lambda ev, x, env: len(_ms_items(ev, x.a[0], env)), atomic=True)
+prod('count_m', '{0}.count()', lazy=lambda ev, x, env: len(_ms_items(ev, x.a[0], env)), atomic=True)
 prod('exists', 'exists({0})', lazy=lambda ev, x, env: len(ev.value(x.a[0], env)) > 0, atomic=True)
 prod('is_empty', '{0}.is_empty()', lazy=lambda ev, x, env: len(ev.value(x.a[0], env)) == 0, atomic=True)
 prod('ms_truth', '{0}', lazy=lambda ev, x, env: len(ev.value(x.a[0], env)) > 0)
 def _l_group_concat(ev, x, env):
     """order inside group_concat is unspecified: the value is compared as a multiset of parts"""
-    items = _nn(ev.value(x.a[0], env))
+    items = _nn(_ms_items(ev, x.a[0], env))
     if not items: return None
     return GroupConcat([_to_str(i) if not isinstance(i, Obj) else str(i.id) for i in items], x.v or ',')
 prod('group_concat', lambda x, a, s: 'group_concat(%s%s)' % (s[0], '' if x.v is None else ', sep=%r' % x.v),
@@ -438,9 +463,9 @@ PK = 'id'
 def _h_n2(p): return call('mul', INT, attr(p, 'n'), const(2))
 def _h_tn(p): return call('concat', STR, attr(p, 't'), const('!'))
 def _h_above(p, k): return call('gt', COND, attr(p, 'n'), k)
-def _h_pick(p, k): return call('ifexp', INT, call('gt', COND, attr(p, 'm'), k), attr(p, 'n'), attr(p, 'm'))
+def _h_scaled(p, k): return call('mul', INT, call('add', INT, attr(p, 'n'), attr(p, 'm')), k)
 HYBRIDS = {'n2': ('property', INT, _h_n2), 'tn': ('property', STR, _h_tn),
-           'above': ('method', COND, _h_above), 'pick': ('method', INT, _h_pick)}
+           'above': ('method', COND, _h_above), 'scaled': ('method', INT, _h_scaled)}
 def hybrid(base, name, *args):
     kind, t, body = HYBRIDS[name]
     return X('hybrid', t, (base,) + tuple(args), (name, kind))
@@ -475,7 +500,7 @@ def define(db):
         @property
         def tn(self): return self.t + '!'
         def above(self, k): return self.n > k
-        def pick(self, k): return self.n if self.m > k else self.m
+        def scaled(self, k): return (self.n + self.m) * k
     class Student(Person):
         grade = Optional(int)
     return db
@@ -643,13 +668,15 @@ class Evaluator(object):
         self.closed = {}        # id(gen node) -> is it independent of outer variables
         self.memo = {}          # results of closed generators / memoised nodes
         self.memo_ids = ()      # ids of nodes whose per-row value is memoised across queries
-    def no_answer(self, env, value):
-        """Python would raise / semantics are not fixed: the row becomes optional"""
+    def no_answer(self, env, value, wild=True):
+        """Python would raise / the semantics are not fixed: the row becomes optional and (wild) its
+        values arbitrary; inside a nested generator the whole outer row has no answer"""
         if env.nested: raise Undef()
         env.flags.add('optional')
+        if wild: env.flags.add('wild')
         return value
     def value(self, x, env):
-        if self.memo_ids and id(x) in self.memo_ids:
+        if self.memo_ids and env.group is None and id(x) in self.memo_ids:
             k = (id(x), id(env.vars.get('p')), bool(env.nested))
             r = self.memo.get(k)
             if r is None:
@@ -680,7 +707,7 @@ class Evaluator(object):
                 return out
             if base is None:
                 if x.a[0].op == 'var': raise core.HarnessError('unbound variable')
-                self.no_answer(env, None)      # attribute of None: Python raises, Pony joins
+                self.no_answer(env, None, wild=False)      # attribute of None: Python raises, Pony joins: row dropped or None
                 return [] if is_ms(x.t) else None
             v = getattr(base, x.v)
             return list(v) if isinstance(v, list) else v
@@ -735,9 +762,12 @@ class Evaluator(object):
 FRONTENDS = ('str', 'gen', 'lam')
 
 class Row(object):
-    __slots__ = ('vals', 'optional', 'wild', 'env', 'okeys')
-    def __init__(self, vals, optional, wild, env, okeys=None):
-        self.vals, self.optional, self.wild, self.env, self.okeys = vals, optional, wild, env, okeys
+    """one reference row. optional: the row may be absent; wild: its values are not fixed;
+    lenient: a truth value in it was computed from a None operand coerced to False - the statement
+    fixes that only for truth tests, so a projected None is accepted in place of the bool"""
+    __slots__ = ('vals', 'optional', 'wild', 'env', 'okeys', 'lenient')
+    def __init__(self, vals, optional, wild, env, okeys=None, lenient=False):
+        self.vals, self.optional, self.wild, self.env, self.okeys, self.lenient = vals, optional, wild, env, okeys, lenient
 
 class Expected(object):
     def __init__(self, mode, rows, types, undecided=None, keyed=False):
@@ -838,6 +868,21 @@ class Query(object):
         proj = self.proj if isinstance(self.proj, tuple) else (self.proj,)
         types = [p.t for p in proj]
         aggregated = any(has_qagg(p) for p in proj) or any(has_qagg(c) for c in self.conds)
+        is_agg_col = has_qagg
+        if not aggregated and self.distinct():
+            # aggregates over attribute-lifted collections (sum(p.tags.w), count(d.persons)) make the query
+            # an aggregated one grouped by the plain columns - unless the row carries every primary key,
+            # where grouping by key and per-row evaluation coincide
+            lp = [lifted_aggs(p) for p in proj]
+            lc = [n for c in self.conds for n in lifted_aggs(c)]
+            if any(lp) or lc:
+                if lc: return Expected('bag', [], types, undecided='lifted aggregate in a condition of a grouped query')
+                if any(l and not (len(l) == 1 and l[0] is p) for l, p in zip(lp, proj)):
+                    return Expected('bag', [], types, undecided='lifted aggregate nested inside a projected expression')
+                if len(set(src(l[0].a[0]).rsplit('.', 1)[0] if not is_ent(item_t(l[0].a[0].t)) else src(l[0].a[0]) for l in lp if l)) > 1:
+                    return Expected('bag', [], types, undecided='several lifted aggregation paths')
+                aggregated = True
+                is_agg_col = lambda p: bool(lifted_aggs(p)) or has_qagg(p)
         envs = [Env({})]
         for v, source in self.fors:
             nxt = []
@@ -855,16 +900,16 @@ class Query(object):
                 for c in plain_conds:
                     if ev.cond(c, e) is not True: ok = False; break
             except Undef: wild = True
-            if not ok: continue
-            kept.append((e, wild))
+            if not ok and 'wild' not in e.flags: continue     # a no-answer condition keeps the row as optional
+            kept.append((e, wild or 'wild' in e.flags))
         if aggregated:
-            if any(w or e.flags for e, w in kept): return Expected('bag', [], types, undecided='no-answer row inside an aggregated query')
-            plain = [i for i, p in enumerate(proj) if not has_qagg(p)]
+            if any(w or 'optional' in e.flags for e, w in kept): return Expected('bag', [], types, undecided='no-answer row inside an aggregated query')
+            plain = [i for i, p in enumerate(proj) if not is_agg_col(p)]
             groups, order = {}, []
             try:
                 for e, _ in kept:
                     k = tuple(canon(ev.value(proj[i], e)) for i in plain)
-                    if e.flags: return Expected('bag', [], types, undecided='no-answer row inside an aggregated query')
+                    if 'optional' in e.flags: return Expected('bag', [], types, undecided='no-answer row inside an aggregated query')
                     if k not in groups: groups[k] = []; order.append(k)
                     groups[k].append(e)
                 if not plain and not kept: groups[()] = []; order.append(())
@@ -874,7 +919,7 @@ class Query(object):
                     ge = Env(members[0].vars if members else {}, set(), group=members)
                     if any(ev.cond(c, ge) is not True for c in agg_conds): continue
                     rows.append(Row(tuple(ev.value(p, ge) for p in proj), False, False, ge))
-                    if ge.flags: return Expected('bag', [], types, undecided='no-answer row inside an aggregated query')
+                    if 'optional' in ge.flags: return Expected('bag', [], types, undecided='no-answer row inside an aggregated query')
             except Undef: return Expected('bag', [], types, undecided='no-answer row inside an aggregated query')
             return Expected('bag', rows, types)
         rows = []
@@ -891,7 +936,8 @@ class Query(object):
                         kv = ev.value(k, e)
                         okeys.append(UNORDERED if isinstance(kv, GroupConcat) else kv)
                     except Undef: okeys.append(UNORDERED)
-            rows.append(Row(tuple(vals), wild or bool(e.flags), wild, e, okeys))
+            wild = wild or 'wild' in e.flags
+            rows.append(Row(tuple(vals), wild or 'optional' in e.flags, wild, e, okeys, 'coerced' in e.flags))
         mode = 'set' if self.distinct() else 'bag'
         return Expected(mode, rows, types, keyed=not self.distinct())
 
@@ -956,6 +1002,7 @@ class Mismatch(object):
 def row_matches(types, row, got):
     if len(got) != len(row.vals): return False
     if row.wild: return True
+    if row.lenient: return all(same(t, e, g) or (g is None and isinstance(e, bool)) for t, e, g in zip(types, row.vals, got))
     return all(same(t, e, g) for t, e, g in zip(types, row.vals, got))
 
 def compare(exp, got, order=None):
@@ -975,7 +1022,7 @@ def compare(exp, got, order=None):
             if k in seen: out.append(Mismatch('duplicate', r, g)); continue
             seen.add(k)
             if not row_matches(types, r, g):
-                col = [i for i, (t, e, gv) in enumerate(zip(types, r.vals, g)) if not same(t, e, gv)]
+                col = [i for i, (t, e, gv) in enumerate(zip(types, r.vals, g)) if not same(t, e, gv) and not (r.lenient and gv is None and isinstance(e, bool))]
                 out.append(Mismatch('value', r, g, col[0] if col else None))
         for k, r in ek.items():
             if k not in seen and not r.optional: out.append(Mismatch('missing', r, None))
@@ -1067,10 +1114,7 @@ def _neg(k):
 
 # ------------------------------------------------------------------------------------------------
 # attribution helpers: operator skeleton with leaves erased to type / value classes
-def leaf_kind(x):
-    if x.op == 'const': return 'const'
-    if x.op == 'param': return 'param'
-    return 'col'
+
 def is_leaf(x):
     return x.op in ('const', 'param', 'var', 'ent') or (x.op == 'attr' and x.a[0].op == 'var')
 
@@ -1258,7 +1302,7 @@ def extra_forms(v, L):
         if d.op == 'param': continue
         out += [attr(d, 'name'), attr(d, 'budget'), attr(d, 'id')]
     for k in L[INT][:4] if len(L[INT]) > 4 else L[INT][:2]:
-        out += [hybrid(v, 'above', k), hybrid(v, 'pick', k)]
+        out += [hybrid(v, 'above', k), hybrid(v, 'scaled', k)]
     out += [hybrid(v, 'n2'), hybrid(v, 'tn')]
     out.append(X('isinstance', COND, (v, X('ent', 'class', (), 'Student'))))
     return out
@@ -1328,3 +1372,50 @@ def enumerate_exprs(v, depth=1, sfx=''):
 def _apply2(sig, la, lb):
     op, ats, rt = sig
     return [X(op, rt, (a, b)) for a in la for b in lb]
+
+
+
+
+def op_skeleton(x):
+    """the root operator of x with its operands erased to their static types. The operand kind
+    (col / const / param / expr, attr / gen for collections) is kept where the translator is known to
+    special-case it: productions marked kindsens, Decimal operands (parameters are bound as text)
+    and collection operands."""
+    if is_leaf(x): return '%s:%s' % (leaf_kind(x), x.t)
+    if is_external(x): return 'param:%s' % x.t
+    if x.op == 'attr': return '%s.%s' % (x.a[0].t, x.v)
+    if x.op == 'hybrid': return 'hybrid %s(%s)' % (x.v[0], ', '.join(c.t for c in x.a))
+    if x.op == 'gen': return '(gen %s)' % x.t
+    p = PRODS[x.op]
+    parts = []
+    for c in x.a:
+        if p.kindsens or c.t == DEC or is_ms(c.t): parts.append('%s:%s' % (operand_kind(c), c.t))
+        else: parts.append(c.t)
+    if callable(p.fmt):
+        if x.op in ('and', 'or'): return (' %s ' % x.op).join(parts)
+        if x.op in ('in_list', 'not_in_list'): return '%s %s (%s)' % (parts[0], 'in' if x.op == 'in_list' else 'not in', ', '.join(parts[1:]))
+        return p.sym.format(*parts)
+    return p.fmt.format(*parts)
+
+def kind_skeleton(x):
+    """operator skeleton with leaves erased to their kind only (for front-end specific failures:
+    the decompiler sees constants, names and attribute chains, not types)"""
+
+    if x.op == 'hybrid': return 'hybrid(%s)' % ', '.join(kind_skeleton(c) for c in x.a)
+    if x.op == 'gen': return '(gen)'
+    p = PRODS[x.op]
+    parts = [kind_skeleton(c) if is_leaf(c) or PRODS.get(c.op, p).atomic else '(' + kind_skeleton(c) + ')' for c in x.a]
+    if callable(p.fmt):
+        if x.op in ('and', 'or'): return (' %s ' % x.op).join(parts)
+        if x.op in ('in_list', 'not_in_list'): return '%s %s (%s)' % (parts[0], 'in' if x.op == 'in_list' else 'not in', ', '.join(parts[1:]))
+        return p.sym.format(*parts)
+    return p.fmt.format(*parts)
+
+def operand_classes(ev, x, env):
+    """value classes of the operands of the root operator of x on one row, e.g. 'neg,pos'"""
+    out = []
+    kids = [x] if (is_leaf(x) or is_external(x)) else [c for c in x.a if c.op not in ('var', 'ent')]
+    for c in kids:
+        try: out.append(value_class(ev.value(c, Env(env.vars))))
+        except Undef: out.append('undef')
+    return ','.join(out)
